@@ -1,11 +1,20 @@
-(* CompilerNames.v - property C09 at the level of the whole compiler (model/Compiler.v):
-   1. alpha_invariance: renaming the identifiers of a program consistently (injectively, never onto a
-      builtin name or the empty anonymous name) leaves the emitted bytecode identical BYTE FOR BYTE;
-   2. accepted_scoped: a program the compiler accepts passes the static scoping pass of spec/Sem.v
-      (every identifier resolves lexically, stop/volgende inside a loop of the same function, antwoord
-      inside a function); hence a program using an undeclared name is never compiled, and Pipeline.eval
-      reports a front-end error without running anything;
-   3. eval_alpha: programs differing only by such a renaming have identical eval results. *)
+(* CompilerNames.v - property C09 at the level of the whole compiler (model/Compiler.v).
+   Part 1 (Section Rename): alpha_invariance, alpha_invariance_compile_ast, compile_alpha, eval_alpha,
+     compile_deterministic_in_names, compile_swap: renaming the identifiers of a program consistently
+     (injectively, never onto a builtin name or onto the empty anonymous name) leaves the emitted bytecode
+     identical BYTE FOR BYTE, hence the eval result.  Later: compile_rename_fresh / eval_rename_fresh
+     (one variable renamed to a name that does not occur in the program).
+   Part 2: compile_scoped / compile_statements_scoped / accepted_scoped: a program the compiler accepts
+     passes the static scoping pass of spec/Sem.v (every identifier resolves lexically, stop/volgende inside
+     a loop of the same function, antwoord inside a function), by a simulation between the compiler's symbol
+     table and Sem's static context; undeclared_rejected, undeclared_rejected_err, undeclared_never_runs
+     (Pipeline.eval reports a front-end error without running anything), compile_never_out_of_fuel;
+     conversely compile_error_scoped / reference_error_exact: a ReferenceError of the compiler is a
+     ReferenceError of the static pass.
+   Hypothesis of Part 2: fn_ok_block (NAMED function literals only as whole statements) - necessary as
+   Sem.v stands, see Example ex_named_fn_expr.
+   The strong induction principle for the nested expr/stmt is cn_ast_ind (own copy; AstInduction.v did not
+   exist when this was written). *)
 From Coq Require Import List ZArith Lia Bool.
 From NL.Model Require Import Compiler Pipeline.
 From NL.Spec Require Import ScopeSpec Sem.
@@ -687,6 +696,16 @@ Section Rename.
     intros u orc src1 src2 ast budget P1 P2. unfold eval. rewrite P1, P2.
     rewrite <- rename_compiler_new at 1. rewrite alpha_invariance_compile_ast.
     destruct (compile_ast ast compiler_new) as [st o]. cbn [fst snd]. destruct o; reflexivity.
+  Qed.
+
+  (* Theorem 3, both halves together *)
+  Corollary compile_deterministic_in_names : forall u orc src1 src2 ast budget,
+    parse u (parse_float orc) src1 = Ok ast ->
+    parse u (parse_float orc) src2 = Ok (rename_block ast) ->
+    front u orc src2 = front u orc src1 /\ eval u orc src2 budget = eval u orc src1 budget.
+  Proof.
+    intros u orc src1 src2 ast budget P1 P2. split; [|eapply eval_alpha; eauto].
+    unfold front. rewrite P1, P2. cbn [bind]. apply compile_alpha.
   Qed.
 End Rename.
 
@@ -2198,6 +2217,7 @@ Proof. vm_compute. repeat split; try reflexivity. eexists; reflexivity. Qed.
 Print Assumptions alpha_invariance.
 Print Assumptions compile_alpha.
 Print Assumptions eval_alpha.
+Print Assumptions compile_deterministic_in_names.
 Print Assumptions compile_swap.
 Print Assumptions compile_statements_scoped.
 Print Assumptions accepted_scoped.
